@@ -8,6 +8,7 @@ import (
 	"github.com/kelindar/column"
 	"github.com/kelindar/column/commit"
 	"github.com/kelindar/smutex"
+	"github.com/zeebo/xxh3"
 )
 
 // World is one simulated universe: real collections, the reference model, the scheduler
@@ -374,6 +375,56 @@ func (w *World) prefill(c *column.Collection, p *Prefill) {
 		id++
 	}
 	w.prefillBulk(c, p)
+	if rows, vals := enumBulkPlan(p); len(rows) > 0 {
+		buf := commit.NewBuffer(1 << 21)
+		buf.Reset(p.EnumBulk)
+		for i, v := range vals {
+			buf.PutString(commit.Put, rows[i%len(rows)], v)
+		}
+		if err := c.Replay(commit.Commit{ID: 990, Chunk: commit.Chunk(rows[0] >> 14), Updates: []*commit.Buffer{buf}}); err != nil {
+			panic(err)
+		}
+	}
+}
+
+var enumBulkCache []string
+
+// enumBulkValues returns n distinct strings no two of which collide in the 32-bit
+// truncation of their xxh3 hash (the enum column's known interning limitation must play no
+// part here), nor with the pair the known finding uses.
+func enumBulkValues(n int) []string {
+	if len(enumBulkCache) < n {
+		seen := map[uint32]bool{uint32(xxh3.HashString(enumCollision[0])): true}
+		for _, s := range enumAlphabet {
+			seen[uint32(xxh3.HashString(s))] = true
+		}
+		enumBulkCache = enumBulkCache[:0]
+		for i := 0; len(enumBulkCache) < n; i++ {
+			s := fmt.Sprintf("bulk-enum-%d", i)
+			if h := uint32(xxh3.HashString(s)); !seen[h] {
+				seen[h] = true
+				enumBulkCache = append(enumBulkCache, s)
+			}
+		}
+	}
+	return enumBulkCache[:n]
+}
+
+// enumBulkPlan returns the rows and values of the enum bulk load of a prefill (nil if none).
+func enumBulkPlan(p *Prefill) ([]uint32, []string) {
+	if p == nil || p.EnumBulk == "" || p.EnumBulkN == 0 || len(p.Survivors) == 0 {
+		return nil, nil
+	}
+	var rows []uint32
+	for _, o := range p.Survivors {
+		if o>>14 == p.Survivors[0]>>14 && int(o>>14) < p.Blocks {
+			rows = append(rows, o)
+		}
+	}
+	if len(rows) == 0 {
+		return nil, nil
+	}
+	return rows, enumBulkValues(p.EnumBulkN)
 }
 
 // bulkValue is the deterministic, incompressible value of a bulk-filled row.
@@ -438,6 +489,15 @@ func prefillModel(m *Model, p *Prefill) {
 				if p.BulkCol != "" {
 					m.Rows[off][p.BulkCol] = MVal{S: bulkValue(off, p.BulkLen)}
 				}
+			}
+		}
+	}
+	if rows, vals := enumBulkPlan(p); len(rows) > 0 {
+		for i, v := range vals {
+			off := rows[i%len(rows)]
+			if r, ok := m.Rows[off]; ok {
+				r[p.EnumBulk] = MVal{S: v}
+				m.touch(off, p.EnumBulk)
 			}
 		}
 	}
